@@ -93,13 +93,17 @@ sub_shapes = st.one_of(
     st.lists(st.integers(1, 2), min_size=3, max_size=3),
 )
 
-array_shapes = st.one_of(
+_small_shapes = st.one_of(
     st.just([]),
     st.sampled_from([[0], [1], [2], [3], [5], [9]]),
     st.sampled_from([[1]]),
     st.tuples(st.integers(1, 3), st.integers(1, 4)).map(list),
     st.sampled_from([[0, 2], [2, 0]]),
 )
+# one array in forty is long: more than 2^16 / 2^17 elements, where code that works through an array in blocks
+# starts (and ends) its second block
+_big_shapes = st.sampled_from([[65537], [65536], [70001], [2 ** 17 + 3], [257, 257], [2 ** 18 + 1]])
+array_shapes = st.integers(0, 39).flatmap(lambda k: _big_shapes if k == 0 else _small_shapes)
 
 
 @st.composite
@@ -175,6 +179,9 @@ def fill_values(rng, base, count, nan_free=False, text_safe=False):
         out.imag = im
         return out
     k = int(base[1:])
+    if count > 4096:
+        # long string columns: a drawn block of 4096 cells repeated (the cells are filled one by one below)
+        return np.resize(fill_values(rng, base, 4096, nan_free, text_safe), count)
     if base.startswith("S"):
         out = np.zeros(count, dtype=base)
         raw = out.view("u1").reshape(count, k)
